@@ -436,3 +436,10 @@ func StartLine(n int) func() {
 		}
 	}
 }
+
+// IsHarnessPanic reports whether a recovered panic value was raised by the harness itself (inconclusive, not a verdict).
+func IsHarnessPanic(pv any) bool {
+	s, ok := pv.(string)
+
+	return ok && strings.HasPrefix(s, "harness:")
+}
